@@ -29,8 +29,14 @@ CONFIG = {
     "tables": ["ntescapes", "regexes"],
     "lean_targets": ["SophiaProofs.Props.C03", "SophiaProofs.Audit.C03"],
     "theorems": ["unescape_quoted", "quoted_clean", "quoted_no_panic", "quoted_rs_eq", "one_line", "read_write_term",
-                 "read_write_quad", "read_write_doc", "read_write_doc_nt", "write_injective"],
-    "native_ok": [],
+                 "read_write_quad", "read_write_doc", "read_write_doc_nt", "write_injective", "writeTerm_injective",
+                 "iri_regex_sub_iriref", "bnode_id_sub_label", "bcp47_sub_langtag", "bcp47_sub_lang_tag",
+                 "lang_tag_guard", "lang_tag_guard_excl", "lang_tag_wider", "valid_termOk", "domain_quadOk",
+                 "read_write_doc_valid"],
+    # whole-regex side-language obligations (validators vs grammar terminals) are evaluated natively by the
+    # verified decision procedure; the round-trip theorems themselves use no native_decide
+    "native_ok": ["iri_regex_sub_iriref", "bnode_id_sub_label", "bcp47_sub_langtag", "bcp47_sub_lang_tag",
+                  "lang_tag_guard", "lang_tag_guard_excl", "valid_termOk", "domain_quadOk", "read_write_doc_valid"],
     "trivial_re": r"^ok=0|skip=|^bad-",
     "rule": "escape level: every escape class alone, all ordered pairs/triples of the critical characters, random "
             "concatenations of classes (each C0 control, DEL, quote, backslash, lone CR, CRLF, LF, TAB, U+0000, non-BMP, "
@@ -51,3 +57,16 @@ CONFIG = {
                     "Stringifier::as_utf8 returns exactly the bytes written (Vec<u8> sink)"],
     "exec_timeout": 600,
 }
+
+
+def _c03_search_requests(lines):
+    """driver reply to `search`: bad=<hex>,<hex>,... -> escape-level requests run on both sides"""
+    reqs = []
+    for l in lines:
+        v = kv(l).get("bad")
+        if v and v != "none":
+            reqs += ["e " + h for h in v.split(",") if h]
+    return reqs
+
+
+CONFIG["model_search"] = {"ask": ["search"], "to_requests": _c03_search_requests}
